@@ -2,6 +2,7 @@ package main
 
 import (
 	"fmt"
+	"math/big"
 	"go/token"
 	"go/types"
 	"strings"
@@ -296,7 +297,7 @@ func (fe *FnEnc) havocReachable(a Val) {
 		es := s.sortOf(a.View.Elem)
 		var nv string
 		if a.View.IsArray {
-			nv = s.fresh("ha", "(Array Int "+es+")")
+			nv = s.fresh("ha", s.sortOf(a.View.Origin.elemType()))
 		} else {
 			nv = s.mkSeq(es, s.seqLen(es, cur), s.fresh("ha", "(Array Int "+es+")"))
 		}
@@ -514,21 +515,59 @@ func (fe *FnEnc) appendBuiltin(args []Val, rt types.Type, pos token.Pos) Val {
 		fe.unsupported("append with non-view operands")
 		return fe.freshVal("ap", rt)
 	}
-	sa := s.name("apa", s.sortOf(rt), s.viewSeq(fe.mem, a.View))
-	var lb, arrB string
-	if b.View.IsStr {
-		fe.unsupported("append of string")
-		return fe.freshVal("ap", rt)
+	la, lb := a.View.Len, b.View.Len
+	var narr string
+	ca, okA := isConstTerm(la)
+	cb, okB := isConstTerm(lb)
+	if okA && okB && ca.IsInt64() && cb.IsInt64() && ca.Int64()+cb.Int64() <= 256 {
+		// both lengths are constants: the result is a ground chain of element terms
+		// (syntactically equal appends give syntactically equal sequences)
+		narr = "((as const (Array Int " + es + ")) " + s.zero(st.Elem()) + ")"
+		k := int64(0)
+		for _, vw := range []*View{a.View, b.View} {
+			n := ca.Int64()
+			if vw == b.View {
+				n = cb.Int64()
+			}
+			for j := int64(0); j < n; j++ {
+				el := s.load(fe.mem, s.viewElemAddr(vw, fmt.Sprint(j)))
+				narr = fmt.Sprintf("(store %s %d %s)", narr, k, el)
+				k++
+			}
+		}
+		narr = s.name("apr", "(Array Int "+es+")", narr)
+	} else if okB && cb.IsInt64() && cb.Int64() <= 16 && a.View.Off == "0" && !a.View.IsArray && !a.View.IsStr {
+		// appending a constant number of elements: stores on top of the old backing array (no quantifier)
+		base := s.load(fe.mem, a.View.Origin)
+		narr = s.seqArr(es, base)
+		for j := int64(0); j < cb.Int64(); j++ {
+			el := s.load(fe.mem, s.viewElemAddr(b.View, fmt.Sprint(j)))
+			idx := la
+			if j > 0 {
+				idx = fmt.Sprintf("(+ %s %d)", la, j)
+			}
+			narr = "(store " + narr + " " + idx + " " + el + ")"
+		}
+		narr = s.name("apr", "(Array Int "+es+")", narr)
+	} else {
+		sa := s.name("apa", s.sortOf(rt), s.viewSeq(fe.mem, a.View))
+		if b.View.IsStr {
+			fe.unsupported("append of string")
+			return fe.freshVal("ap", rt)
+		}
+		sb := s.name("apb", s.seqSort(es), s.viewSeq(fe.mem, b.View))
+		arrB := s.seqArr(es, sb)
+		arrA := s.seqArr(es, sa)
+		narr = s.fresh("apr", "(Array Int "+es+")")
+		// total definition (index below la -> a, otherwise b shifted): equal appends give equal arrays
+		s.assert(fmt.Sprintf("(forall ((k Int)) (! (= (select %s k) (ite (< k %s) (select %s k) (select %s (- k %s)))) :pattern ((select %s k))))",
+			narr, la, arrA, arrB, la, narr))
 	}
-	sb := s.name("apb", s.seqSort(es), s.viewSeq(fe.mem, b.View))
-	lb, arrB = b.View.Len, s.seqArr(es, sb)
-	la := a.View.Len
-	arrA := s.seqArr(es, sa)
-	narr := s.fresh("apr", "(Array Int "+es+")")
-	// total definition (index below la -> a, otherwise b shifted): equal appends give equal arrays
-	s.assert(fmt.Sprintf("(forall ((k Int)) (! (= (select %s k) (ite (< k %s) (select %s k) (select %s (- k %s)))) :pattern ((select %s k))))",
-		narr, la, arrA, arrB, la, narr))
-	nl := s.name("apl", "Int", "(+ "+la+" "+lb+")")
+	nlt := "(+ " + la + " " + lb + ")"
+	if okA && okB {
+		nlt = numInt(new(big.Int).Add(ca, cb))
+	}
+	nl := s.name("apl", "Int", nlt)
 	v := fe.wrapTerm(s.mkSeq(es, nl, narr), rt)
 	v.View.Len = nl
 	v.View.NilFlag = ""
@@ -551,8 +590,10 @@ func (fe *FnEnc) copyBuiltin(args []Val, rt types.Type) Val {
 	ssrc := s.name("cps", s.seqSort(es), s.viewSeq(fe.mem, src.View))
 	base := s.load(fe.mem, dst.View.Origin)
 	var arr string
+	var dstArrT *types.Array
 	if dst.View.IsArray {
-		arr = base
+		dstArrT = types.Unalias(dst.View.Origin.elemType()).Underlying().(*types.Array)
+		arr = s.arrToSMT(dstArrT, base)
 	} else {
 		arr = s.seqArr(es, base)
 	}
@@ -562,7 +603,7 @@ func (fe *FnEnc) copyBuiltin(args []Val, rt types.Type) Val {
 		narr, off, off, n, s.seqArr(es, ssrc), off, arr, narr))
 	var nv string
 	if dst.View.IsArray {
-		nv = narr
+		nv = s.arrFromSMT(dstArrT, narr)
 	} else {
 		nv = s.mkSeq(es, s.seqLen(es, base), narr)
 	}
